@@ -36,7 +36,7 @@ CHECKS["C17"] = {
 
 CHECKS["C12"] = {
     "runs": [
-        R("./env", {"fn": r"^ZZ_C12_(values_step|path_step|external_step|copy_step)$"},
+        R("./env", {"fn": r"^ZZ_C12_(values_step|path_step|external_step|copy_step|types_step_quick)$"},
                    {"fn": r"^ZZ_C12_(values_step|path_step|external_step|copy_step|types_step)$"}),
         R("./env", {"fn": r"^ZZ_C12_history3$"}, thorough_only=True),
     ],
